@@ -376,14 +376,22 @@ func ruleSIDDuidAddr(c *Ctx, rule string) {
 			}
 			n++
 			key := fmt.Sprintf("%s DUID link-layer address#%d", shortFn(fn), n)
-			ok2, why := staticOrigins(c, closureRoot(fn), sto.Val, func(v ssa.Value) bool {
+			isParsed := func(v ssa.Value) bool {
 				e, ok := v.(*ssa.Extract)
 				if !ok || e.Index != 0 {
 					return false
 				}
 				call, ok := e.Tuple.(*ssa.Call)
 				return ok && call.Call.StaticCallee() != nil && call.Call.StaticCallee().String() == "net.ParseMAC"
-			})
+			}
+			// judged from the functions that explore this one inline (the literal may sit in a helper
+			// that receives the parsed address as a parameter)
+			ok2, why := true, ""
+			for _, root := range explorationRoots(c, closureRoot(fn)) {
+				if o, w := staticOrigins(c, root, sto.Val, isParsed); !o {
+					ok2, why = false, w
+				}
+			}
 			if ok2 {
 				c.R.ok(rule, key, c.P.InstrPos(in), shortFn(fn), "the configured hardware address as parsed")
 			} else {
